@@ -126,8 +126,10 @@ def cell_matches_token(cell, token):
 
 
 def check_sel_string_vs_table(rep, cls, n, string, table_rows, detail_prefix):
-    """Selected-output string (heading lines + data lines) against the value table of user number n.
-    Token i of a data line corresponds to the i-th non-empty cell of the table row (cells are filled in print order)."""
+    """Selected-output text (heading lines + data lines) against the value table of user number n.
+    Token i of a data line belongs to the table column named by heading i of the most recent heading line
+    (values punched beyond the headings go to the columns no_heading_1, no_heading_2, ...); every other cell
+    of that table row must be empty."""
     lines = getline_split(string)
     if not table_rows:
         # no row was punched in this call: the table has no columns; the text may still hold heading lines
@@ -142,36 +144,71 @@ def check_sel_string_vs_table(rep, cls, n, string, table_rows, detail_prefix):
     if any(h is None for h in headings):
         rep.viol(cls, "%s:heading_not_string" % cls, "%s block %d: row 0 holds non-string cells: %r" % (detail_prefix, n, table_rows[0][:8]))
         return 0
-    hset = set(headings)
-    # also accept the short heading used in the text for totals: 'Na' for column 'Na(mol/kgw)'
-    short = set(h.split("(")[0] for h in headings)
+    col_of = {}
+    for ci, h in enumerate(headings):
+        col_of.setdefault(h, ci)
+        col_of.setdefault(re.sub(r"\((mol/kgw|eq/kgw|eq|C)\)$", "", h), ci)   # 'Na' / 'C(4)' for columns 'Na(mol/kgw)' / 'C(4)(mol/kgw)'
     data_rows = table_rows[1:]
+    if data_rows and all(c == "E" for row in data_rows for c in row):
+        # a block that punches nothing: its text holds heading lines and blank lines only
+        for l in lines:
+            st = [t.strip() for t in l.split("\t") if t.strip() != ""]
+            if any(t not in col_of for t in st):
+                rep.viol(cls, "%s:sel_cells" % cls, "%s block %d: every table cell is empty but the text holds %r" % (detail_prefix, n, l[:120]))
+                break
+        return len(data_rows)
     r = 0
     nhead = 0
+    names = None
     for li, line in enumerate(lines):
         toks = line.split("\t")
         if toks and toks[-1].strip() == "" and line.endswith("\t"):
             toks = toks[:-1]
         st = [t.strip() for t in toks]
-        is_heading = len(st) > 0 and all((t in hset or t in short) for t in st) and any(NUM_RE.match(t) is None for t in st)
+        if line == "" and r < len(data_rows) and all(c == "E" for c in data_rows[r]):
+            r += 1          # a row in which nothing was punched
+            continue
+        is_heading = (line == "") or (len(st) > 0 and all(t in col_of for t in st) and any(NUM_RE.match(t) is None for t in st))
         if is_heading:
             nhead += 1
+            names = [] if line == "" else st
             continue
+        if names is None:
+            rep.viol(cls, "%s:sel_no_heading_line" % cls, "%s block %d: data line %r precedes any heading line; tokens not among the table headings: %r; headings %r" % (detail_prefix, n, line[:60], [t for t in st if t not in col_of][:5], headings[:30]))
+            return r
         if r >= len(data_rows):
             rep.viol(cls, "%s:sel_rows" % cls, "%s block %d: string has more data lines than the table has rows (%d); extra line %r" % (detail_prefix, n, len(data_rows), line[:120]))
             return r
-        cells = [c for c in data_rows[r] if c != "E"]
-        if len(cells) != len(toks):
-            rep.viol(cls, "%s:sel_cells" % cls, "%s block %d data row %d: %d text cells but %d non-empty table cells; line %r; row %r" % (detail_prefix, n, r + 1, len(toks), len(cells), line[:160], data_rows[r][:10]))
-            return r
-        for ci, (c, t) in enumerate(zip(cells, toks)):
-            if not cell_matches_token(c, t):
-                rep.viol(cls, "%s:sel_value" % cls, "%s block %d data row %d text cell %d: text %r is not the table value %r in the text's format" % (detail_prefix, n, r + 1, ci, t, c))
+        row = data_rows[r]
+        problem = match_by_names(row, toks, names, col_of, headings)
+        if problem:
+            # headings of a USER_PUNCH can change without a new heading line in the text; then the cells are still the
+            # row's non-empty cells in table order
+            cells = [c for c in row if c != "E"]
+            if not (len(cells) == len(toks) and all(cell_matches_token(c, t) for c, t in zip(cells, toks))):
+                kind, msg = problem
+                rep.viol(cls, "%s:%s" % (cls, kind), "%s block %d data row %d: %s; line %r; row %r" % (detail_prefix, n, r + 1, msg, line[:160], row[:12]))
                 return r
         r += 1
     if r != len(data_rows):
         rep.viol(cls, "%s:sel_rows" % cls, "%s block %d: table has %d data rows, string has %d data lines (and %d heading lines)" % (detail_prefix, n, len(data_rows), r, nhead))
     return r
+
+
+def match_by_names(row, toks, names, col_of, headings):
+    used = set()
+    for ti, t in enumerate(toks):
+        name = names[ti] if ti < len(names) else "no_heading_%d" % (ti - len(names) + 1)
+        ci = col_of.get(name)
+        if ci is None or ci >= len(row):
+            return ("sel_cells", "text cell %d (%r) belongs to column %r, which the table does not have (headings %r)" % (ti, t.strip()[:40], name, headings[:12]))
+        used.add(ci)
+        if row[ci] == "E" or not cell_matches_token(row[ci], t):
+            return ("sel_value", "column %r: text %r is not the table value %r in the text's format" % (name, t, row[ci]))
+    extra = [headings[ci] for ci, c in enumerate(row) if c != "E" and ci not in used]
+    if extra:
+        return ("sel_cells", "table cells %r hold values that the text line does not show" % (extra[:6],))
+    return None
 
 
 def check_table_shape(rep, cls, n, rows_field, cols_field, table_rows, detail_prefix):
